@@ -2,7 +2,7 @@
 """Print the markdown table of seeded changes (from /verif/seeded/*/meta.json + check_output.txt) for DESIGN.md §8.5."""
 import json, os, re, glob
 EXTRA = {  # cross-detections observed by hand (other checks that also catch the change)
- "C02-extend-drops-partition-from-deadline-queue": "C04 quick (`deadline-queue-misses-partition`); the C02 clause itself only once the chain reaches the new expiration (>= 180 days: thorough tier `ToExpiry`)",
+ "C02-extend-drops-partition-from-deadline-queue": "caught by C04 quick (`deadline-queue-misses-partition`) and by C02 **thorough** (`expiration-not-processed` at the on-time expiration, 2044 cases / 19 min); the power symptom needs >= 210 days of chain time, which the quick tier does not generate",
  "C14-beneficiary-expiry-boundary": "also C13 (withdrawal probes)",
 }
 rows = []
